@@ -5,6 +5,7 @@ Models moves/copies, references, aggregates, field projection, and a handful of 
 (mem::swap / replace / take, Option::take, clone, channel, Some/None, Box::new, into/from identity,
 unwrap).  Everything else becomes an opaque ('call', name, args) term.
 """
+import re
 from core import pl_key, op_place, op_const, call_name, CheckerError
 
 IDENTITY_CALLS = (
@@ -213,6 +214,18 @@ class Sym:
                 return ("some", args[1][1][0])
             if name in ("std::result::Result::Ok", "std::result::Result::Err", "std::result::Result::<T, E>::Ok", "std::result::Result::<T, E>::Err"):
                 return ("agg", "std::result::Result", name.rsplit("::", 1)[1], {"0": args[1][1][0]})
+        if re.search(r"slice::<impl \[T\]>::(is_empty|len)$", name) and len(args) == 1:
+            # length of a slice that is a whole fixed-size array (`[0; 1024]` borrowed as a slice)
+            a = self.deref_arg(args[0])
+            v = self.read_key(a) if a is not None else None
+            hops = 0
+            while v is not None and v[0] == "ref" and hops < 6:
+                v = self.read_key(v[1]); hops += 1
+            if v is not None and v[0] == "repeat" and str(v[2]).isdigit():
+                n = int(v[2])
+                if name.endswith("is_empty"):
+                    return ("const", n == 0, "true" if n == 0 else "false", None)
+                return ("const", n, "%d_usize" % n, None)
         if name == "std::mem::swap" and len(args) == 2:
             a, b = self.deref_arg(args[0]), self.deref_arg(args[1])
             if a is not None and b is not None:
